@@ -123,7 +123,17 @@ def w_step(ctx, rng, idx):
         coeff = [1, 1] if scheme == 'lie' else [0.5, 1]
         with probe.oracle():
             kw['K'] = getattr(ode, '__splitting_propagators')(copyc(S), copyc(L), copyc(I), copyc(M), d, h, coeff)
+    if scheme == 'lie' and rng.random() < 0.3:
+        kw['tmp_rank'] = int(rng.integers(10 ** 3, 10 ** 4))
     call('ode.' + scheme + '_splitting', fn, copyc(S), copyc(L), copyc(I), copyc(M), x0, h, N, prop=P, tags=['scheme=' + scheme], **kw)
+    if rng.random() < 0.5:
+        # the very same component arrays and initial state serve several calls in a row (another step size, another scheme):
+        # anything kept between calls, or written into the caller's arrays, shows in the later ones
+        for _ in range(2):
+            scheme2 = SCHEMES[int(rng.integers(0, 4))]
+            h2 = float(rng.uniform(0.05, 0.6))
+            call('ode.' + scheme2 + '_splitting', getattr(ode, scheme2 + '_splitting'), S, L, I, M, x0, h2, int(rng.integers(1, 3)), prop=P,
+                 tags=['scheme=' + scheme2, 'second_call'], threshold=0.0, max_rank=10 ** 4, normalize=nz)
     if idx < 4:
         ctx.sample({'workload': 'step', 'scheme': scheme, 'dims': dims, 'homogeneous': hom, 'generator': kind, 'h': h, 'steps': N, 'normalize': nz, 'initial_ranks': x0.ranks})
 
